@@ -1,11 +1,19 @@
 #!/bin/sh
-# usage: tools/try_mutant.sh <Cnn> <patch.diff> [tier]   -- applies to /repo, runs the check, reverts
+# usage: tools/try_mutant.sh <Cnn> <patch.diff> [tier]   -- applies to /repo, runs the check, reverts.
+# The evidence file and replays of the clean tree are put back afterwards (committed evidence must come from /repo itself).
 pid=$1; diff=$2; tier=${3:-quick}
 cd /repo || exit 2
 git diff --quiet || { echo "/repo not clean"; exit 2; }
 git apply "$diff" || { echo "patch does not apply"; exit 2; }
+sav=$(mktemp -d)
+cp /verif/evidence/$pid.json $sav/ 2>/dev/null
+mkdir -p $sav/replays; cp /verif/replays/$pid-*.json $sav/replays/ 2>/dev/null
 cd /verif && ./check "$pid" "$tier" > /tmp/try_mutant.out 2>&1
 rc=$?
-tail -6 /tmp/try_mutant.out
+tail -6 /tmp/try_mutant.out | cut -c1-300
+mkdir -p /tmp/try_mutant_replays; rm -f /tmp/try_mutant_replays/*; cp /verif/replays/$pid-*.json /tmp/try_mutant_replays/ 2>/dev/null
 git -C /repo checkout -- . && git -C /repo clean -fdq
+rm -f /verif/replays/$pid-*.json; cp $sav/replays/*.json /verif/replays/ 2>/dev/null
+[ -f $sav/$pid.json ] && cp $sav/$pid.json /verif/evidence/$pid.json
+rm -rf $sav
 echo "exit=$rc"
